@@ -261,4 +261,28 @@ def objUnseal (P : Prims) (b : Box) (rpk rsk : Bytes) : Outcome Bytes :=
   | none => .err
   | some epk => objBoxDecrypt P b (sealNonce P epk rpk) epk rsk
 
+/-! ### dryocbox.rs / precalc.rs: the precomputed-key object API
+
+`PrecalcSecretKey::precalculate` is `crypto_box_beforenm`; `DryocBox::precalc_encrypt` resizes `data` to the
+message length and calls `crypto_box_detached_afternm`; `DryocBox::precalc_decrypt` resizes the output to the
+data length and calls `crypto_box_open_detached_afternm`. -/
+
+/-- `PrecalcSecretKey::precalculate(third_party_public_key, secret_key)` -/
+def precalculate (P : Prims) (pk sk : Bytes) : Bytes := beforenm P pk sk
+
+/-- `DryocBox::precalc_encrypt(message, nonce, precalc_secret_key)` -/
+def objPrecalcEncrypt (P : Prims) (msg nonce key : Bytes) : Outcome Box :=
+  match boxDetachedAfternm P (zeros msg.length) msg nonce key with
+  | .ok (c, mac) => .ok ⟨none, mac, c⟩
+  | .err => .err
+  | .panic => .panic
+
+/-- `DryocBox::precalc_decrypt(nonce, precalc_secret_key)` -/
+def objPrecalcDecrypt (P : Prims) (b : Box) (nonce key : Bytes) : Outcome Bytes :=
+  let r := boxOpenDetachedAfternm P (zeros b.data.length) b.tag b.data nonce key
+  match r.res with
+  | .ok () => .ok r.buf
+  | .err => .err
+  | .panic => .panic
+
 end DryocVerif.Model.SecretBox
